@@ -52,11 +52,11 @@ AgreeOk(e) ==
      ELSE (e.check = ok /\ e.compile = ok /\ e.run = ok)
 
 (* ---- C08: compile is all-or-nothing ---- *)
-(* dest: "absent" | "file" | "devfull" | "nodir";  before/after: file bytes (or <<-1>> if absent) *)
+(* dest: "absent" | "file" | "longer" (this object + stale tail) | "devfull" | "nodir";  before/after: file bytes (or <<-1>> if absent) *)
 AtomicOk(e) ==
   LET ok == Accepts(e.ast, e.stack) IN
   /\ e.code # 101
-  /\ (e.code = 0 => /\ ok /\ e.dest \in {"absent", "file"} /\ e.after = ObjectBytes(e.ast))
+  /\ (e.code = 0 => /\ ok /\ e.dest \in {"absent", "file", "longer"} /\ e.after = ObjectBytes(e.ast))
   /\ (e.code # 0 => e.after = e.before)
   /\ (~ok => e.code # 0)
   /\ (e.dest \in {"devfull", "nodir"} => e.code # 0)
